@@ -154,6 +154,22 @@ func (w *wire) consume(n int) {
 	}
 }
 
+// take removes and returns the first n queued bytes (harness-side transfer between wires).
+func (w *wire) take(n int) []byte {
+	w.mu.Lock()
+	defer w.mu.Unlock()
+	if n > w.queued {
+		n = w.queued
+	}
+	out := make([]byte, 0, n)
+	for len(out) < n {
+		c := min(n-len(out), len(w.segs[0]))
+		out = append(out, w.segs[0][:c]...)
+		w.consume(c)
+	}
+	return out
+}
+
 func (w *wire) close() {
 	w.mu.Lock()
 	w.closed = true
